@@ -6,13 +6,16 @@ import json, os, re, shutil, sys, glob
 
 V = os.path.dirname(os.path.dirname(os.path.abspath(__file__)))
 bendir, results = sys.argv[1], sys.argv[2:]
+TAG = os.environ.get('BEN_TAG', '')      # second wave (API-variation refactors): BEN_TAG=2 -> ids Cxx-ben2A
 res = {}
 for rf in results:
     for rec in json.load(open(rf)):
         m = re.search(r'/(C\d\d)\.out/(ben[A-Z])\.diff$', rec['patch'])
         if not m:
             continue
-        sid = '%s-%s' % m.groups()
+        if os.path.dirname(os.path.dirname(rec['patch'])) != os.path.abspath(bendir):
+            continue
+        sid = '%s-%s' % (m.group(1), m.group(2).replace('ben', 'ben' + TAG))
         if 'error' in rec:
             res.setdefault(sid, {})['_error'] = rec['error']
         for c, v in rec.get('checks', {}).items():
@@ -23,7 +26,7 @@ for d in sorted(glob.glob(os.path.join(bendir, 'C??.out'))):
     pid = os.path.basename(d)[:3]
     for diff in sorted(glob.glob(os.path.join(d, 'ben?.diff'))):
         v = os.path.basename(diff)[:-5]
-        sid = '%s-%s' % (pid, v)
+        sid = '%s-%s' % (pid, v.replace('ben', 'ben' + TAG))
         dst = os.path.join(V, 'benign', sid)
         os.makedirs(dst, exist_ok=True)
         shutil.copy(diff, os.path.join(dst, 'patch.diff'))
@@ -40,8 +43,14 @@ for d in sorted(glob.glob(os.path.join(bendir, 'C??.out'))):
         json.dump(meta, open(os.path.join(dst, 'meta.json'), 'w'), indent=1)
         nd = sum(x['engine_m_groups_not_decided'] for c, x in r.items() if not c.startswith('_'))
         rows.append((sid, ', '.join(files), len([c for c in r if not c.startswith('_')]), nonzero, nd))
-with open(os.path.join(V, 'benign', 'MATRIX.md'), 'w') as f:
+mpath = os.path.join(V, 'benign', 'MATRIX.md')
+keep = []
+if TAG and os.path.exists(mpath):
+    keep = [l for l in open(mpath).read().splitlines()[2:] if l.strip() and ('-ben' + TAG) not in l.split('|')[1]]
+with open(mpath, 'w') as f:
     f.write('| refactor | files | checks run (quick) | non-zero exits | Engine M groups not decided (NOTE) |\n|---|---|---|---|---|\n')
+    for l in keep:
+        f.write(l + '\n')
     for sid, files, n, nz, nd in rows:
         f.write('| %s | %s | %d | %s | %d |\n' % (sid, files, n, ', '.join('%s: exit %d' % kv for kv in sorted(nz.items())) or 'none', nd))
 print('%d refactors, %d with a non-zero exit' % (len(rows), len([r for r in rows if r[3]])))
